@@ -961,6 +961,10 @@ class GenFunctions(object):
             fmt = new.fmtdict
             if targs.fmtdict:
                 fmt.update(targs.fmtdict)
+            if targs.options:
+                # The options of this instantiation only.
+                new.options.update(targs.options)
+                new.wrap = ast.WrapFlags(new.options)
 
             # Use explicit template_suffix if provide.
             # If single template argument, use type's explicit_suffix
